@@ -402,7 +402,7 @@ def short(path, primary):
 
 # ------------------------------------------------------------------------------------------ lossless restore
 VALUE_KEY_PREFIXES = ("coeff", "tdh_wfns", "mt_", "tensor_")       # complex-capable numerical content
-LOSSLESS = {"item", "copy", "tolist", "asxp", "asnumpy", "Matrix", "np.asarray", "np.array", "xp.asarray", "complex", "<subscript>", "<assign>", "setattr"}
+LOSSLESS = {"item", "copy", "tolist", "asxp", "asnumpy", "Matrix", "TreeNodeTensor", "np.asarray", "np.array", "xp.asarray", "complex", "<subscript>", "<assign>", "setattr"}
 LOSSY = {"real", "imag", "astype", "round", "float", "int", "abs", "bool", "np.real", "np.imag", "np.abs", "np.float64", "np.float32", "np.around", "np.round", "clip"}
 META_OK = {"int", "bool", "astype", "tolist", "str", "item", "<subscript>", "<assign>", "<compare>", "setattr", "copy", "np.array", "np.asarray"}
 
@@ -448,8 +448,8 @@ def lossless_restore_rule(chk, src):
                         chain.append("<subscript>")
                     elif isinstance(par, ast.Compare):
                         chain.append("<compare>")
-                    elif isinstance(par, (ast.keyword, ast.Starred, ast.Tuple, ast.List)):
-                        pass
+                    elif isinstance(par, (ast.keyword, ast.Starred, ast.Tuple, ast.List, ast.ListComp, ast.GeneratorExp, ast.SetComp, ast.DictComp, ast.comprehension, ast.Dict, ast.IfExp)):
+                        pass        # containers, comprehensions and conditional expressions hand the value on unchanged
                     else:
                         chain.append("<" + type(par).__name__ + ">")
                     cur = par
@@ -538,7 +538,7 @@ def tree_round_trip_rule(chk, src):
             fail = None
             try:
                 itd.call_function(fd or base_d, [me, "file"] + ([extra] if cname == "TTNBase" else []))
-            except (AttributeError, KeyError, IndexError, TypeError, SymRaise, AnalysisError) as e:
+            except (AttributeError, KeyError, IndexError, TypeError, SymRaise) as e:
                 fail = f"writer: {type(e).__name__}: {e}"
 
             class Archive(Sym):
@@ -632,14 +632,14 @@ def chain_round_trip_rule(chk, src):
 
                 def __len__(self):
                     return len(self.items)
-            itd = SymInterp(src, None, {"np": OpenSym("np", savez=lambda fname, **kw: saved.update(kw), empty=lambda n_, t=None: ObjArr()), "logger": Blob("logger"), "object": object,
+            itd = SymInterp(src, None, {"np": OpenSym("np", savez=lambda fname, **kw: saved.update(kw), empty=lambda n_, t=None, dtype=None, **k_: ObjArr()), "logger": Blob("logger"), "object": object,
                                         "super": lambda: Sym("super", dump=lambda fname, other_attrs=None: itd.call_function(base_d, [me, fname, other_attrs]))})
             itd.builtins["isinstance"] = lambda x, t: isinstance(x, t) if isinstance(t, type) else False
             from ..syminterp import SymRaise
             fail = None
             try:
                 itd.call_function(fd, [me, "file"])
-            except (AttributeError, KeyError, IndexError, TypeError, SymRaise, AnalysisError) as e:
+            except (AttributeError, KeyError, IndexError, TypeError, SymRaise) as e:
                 fail = f"writer: {type(e).__name__}: {e}"
 
             class Archive(Sym):
@@ -694,10 +694,6 @@ def run(chk):
     chk.assumptions = ["np.savez is not atomic (a crash inside it leaves a partial file); os.rename/os.replace/os.remove are atomic",
                        "a file is loadable iff its writer completed", "numpy's npz round trip preserves arrays"]
 
-    chk.rule("version-accepted", "the version literal written by a class's dump chain is accepted by its load chain", 3)
-    chk.rule("keys-read-written", "every npz key read by load (on the branch of the written version) is written by dump", 3)
-    chk.rule("key-wiring", "a key is restored into the same attribute it was dumped from", 12)
-    chk.rule("state-attrs", "every state-defining attribute is both dumped and assigned on load", 12)
     chk.rule("crash-points", "from every reachable abstract directory state holding a complete result file, a complete result "
              "file exists after every file-system effect of dump_dict (exhaustive)", 3)
     chk.rule("lossless-restore", "numerical content read from the archive is restored without narrowing conversions", 10)
@@ -709,49 +705,6 @@ def run(chk):
     chk.rule("spill-protocol", "disk spill of large site tensors: writer / reader / cleanup agree, content and metadata preserved", 6)
     spill_rule(chk, src)
     chk.rule("dump-completes", "normal completion of dump_dict leaves the primary result file complete", 1)
-
-    io = IO(src, chk)
-    families = [
-        ("MatrixProduct", MP, ["tensors", "qn", "qnidx", "qntot", "to_right"]),
-        ("Mps", MPS, ["tensors", "qn", "qnidx", "qntot", "to_right", "coeff"]),
-        ("MpDm", "renormalizer/mps/mpdm.py", ["tensors", "qn", "qnidx", "qntot", "to_right", "coeff"]),
-        ("TTNS", TREE, ["tensor", "qn", "coeff"]),
-    ]
-    chk.table("state_attributes", {f[0]: f[2] for f in families})
-    for cname, rel, attrs in families:
-        ci = src.cls(rel, cname)
-        wkeys, wver, wfi = io.writer(ci)
-        reads, rejected, rfi, allreads = load_info(src, ci, wver)
-        if wver is None:
-            raise AnalysisError(f"{cname}.dump writes no version literal")
-        chk.ob("version-accepted", cname, not rejected, rfi.where, f"version {wver!r} rejected" if rejected else f"{wver!r} accepted",
-               f"load accepts {wver!r}", detail=f"{cname}.dump writes version {wver!r} but the load chain raises/asserts on it",
-               line=rfi.node.lineno)
-        missing = sorted(k for k in allreads if k not in wkeys)
-        chk.ob("keys-read-written", cname, not missing, rfi.where, missing or "all read keys are written",
-               f"subset of {sorted(wkeys)}", detail=f"{cname}.load reads key(s) {missing} that {cname}.dump does not write",
-               line=rfi.node.lineno)
-        for k, dest in sorted(reads.items()):
-            if k == "version" or k == "nsites":
-                continue
-            s = wkeys.get(k)
-            if s is None:
-                continue
-            if s == "?":
-                chk.note(f"{cname}: source of key {k} not attributable; wiring not checked")
-                continue
-            eq = (s == dest) or {s, dest} <= {"tensors", "tensor", "array"}
-            chk.ob("key-wiring", f"{cname}:{k}", eq, rfi.where, f"{k!r}: dumped from {s!r}, restored into {dest!r}", "same attribute",
-                   detail=f"{cname}: key {k!r} is dumped from attribute {s!r} but load assigns it to {dest!r}", line=rfi.node.lineno)
-        dests = set(reads.values())
-        srcs = set(wkeys.values())
-        for a in attrs:
-            alias = {"tensors": {"tensors", "tensor"}, "tensor": {"tensors", "tensor"}}.get(a, {a})
-            ok = bool(alias & dests) and bool(alias & srcs)
-            chk.ob("state-attrs", f"{cname}.{a}", ok, wfi.where,
-                   {"dumped": bool(alias & srcs), "restored": bool(alias & dests)}, "dumped and restored",
-                   detail=f"{cname}: state attribute {a!r} is " + ("not dumped" if not alias & srcs else "not restored by load"),
-                   line=wfi.node.lineno)
 
     # ------------------------------------------------------------------ crash points
     fi = src.func(TDMPS, "TdMpsJob.dump_dict")
